@@ -3,7 +3,7 @@ import contextlib
 from typing import Optional
 from unittest import mock
 
-from cincoconfig import ChallengeField, Schema
+from cincoconfig import ChallengeField, IntField, Schema
 from cincoconfig.fields import secure_field as sfmod
 from cincoconfig.fields.secure_field import DigestValue
 
@@ -209,4 +209,70 @@ def _concrete(algo: str, size: int, text: str, default_kind: int) -> bool:
     other = schema()
     if default_kind in (1, 3):
         hold("default", other.pw.salt != dv.salt, "two configurations share one random salt")
+    return True
+
+
+# --------------------------------------------------------------------------- plaintexts written by hand into real documents
+HAND_TEXTS = ("hello", "123456", "0042", "3.14", "-7", "true", "null", " 2024 ", "1e3", "yes")
+
+
+@obligation(prop="C09", sites=("hand",), budget={"quick": 120, "thorough": 240},
+            encodes=["cincoconfig.fields.secure_field.ChallengeField.to_python", "cincoconfig.core.Config.loads"],
+            what="a plaintext written by hand into a real JSON / YAML / XML document (as a string; secrets that look "
+                 "like numbers, booleans or null included; field at the root or nested) is hashed on load: the "
+                 "challenge with exactly that text succeeds, with another one fails, and the next save carries salt "
+                 "and digest instead of the text")
+def handwritten_documents_are_hashed(fi: int, ti: int, nested: bool) -> bool:
+    """
+    pre: 0 <= fi <= 2 and 0 <= ti < 10
+    post: _
+    """
+    import json
+    from vf.hlib.stubs import untraced
+    fmt = ("json", "yaml", "xml")[0]
+    for i, f in enumerate(("json", "yaml", "xml")):
+        if fi == i:
+            fmt = f
+    text = HAND_TEXTS[0]
+    for i in range(len(HAND_TEXTS)):
+        if ti == i:
+            text = HAND_TEXTS[i]
+    nst = True if nested else False
+    with untraced():
+        schema = Schema()
+        owner = schema.auth if nst else schema
+        owner.password = ChallengeField("sha256")
+        owner.other = IntField(default=1)
+        if fmt == "json":
+            leaf = '"password": %s' % json.dumps(text)
+            doc = '{"auth": {%s}}' % leaf if nst else "{%s}" % leaf
+        elif fmt == "yaml":
+            leaf = "password: %s" % json.dumps(text)          # a double-quoted YAML scalar
+            doc = ("auth:\n  %s\n" % leaf) if nst else leaf + "\n"
+        else:
+            leaf = "<password>%s</password>" % text            # no type attribute: this is what a person writes
+            # (sections must be marked as maps in this XML dialect; an untyped LEAF is text)
+            doc = "<config>%s</config>" % (("<auth type=\"dict\">%s</auth>" % leaf) if nst else leaf)
+        cfg = schema()
+        try:
+            cfg.loads(doc.encode(), format=fmt)
+            err = None
+        except Exception as exc:  # noqa: BLE001
+            err = exc
+        hold("hand", err is None, lambda: "%s document with the hand-written secret %r does not load: %r" % (fmt, text, err))
+        dv = (cfg.auth if nst else cfg).password
+        hold("hand", type(dv) is DigestValue, "hand-written plaintext was not hashed")
+        good = True
+        try:
+            dv.challenge(text)
+        except ValueError:
+            good = False
+        hold("hand", good, lambda: "the hand-written secret %r does not verify after the %s load" % (text, fmt))
+        try:
+            dv.challenge(text + "x")
+            hold("hand", False, "a different secret verifies")
+        except ValueError:
+            pass
+        out = cfg.dumps(format=fmt).decode()
+        hold("hand", "salt" in out and "digest" in out, "the next save does not carry salt and digest")
     return True
